@@ -16,9 +16,14 @@ CHECK_VO = ["Model/C07IterCheck.v"]
 CHECKER = "c07_checker"
 CASE_TYPE = "c07_case"
 SHARD = 120
+# representation modes of harness/ftutil.py (wave 3): traversal only delivers payloads, never multiplies
+# them, so the opt-in kind "tiny" (v * 2^-40: a non-default value within 1e-9 of the default) is sound
+VKINDS = ["int", "int", "float", "sub", "tiny"]
 
 RULE = ("case = (one fiber of depth 1-2 over coordinates -4..8 with absent / explicit-default / value "
-        "elements (empty sub-fibers at depth 2), leaf default 0 or 3 (then 0 is a value), shape "
+        "elements (empty sub-fibers at depth 2), leaf default 0 or 3 (then 0 is a value) or None (sentinel; "
+        "nothing is empty, creation-free operations only), values handed over as int / float / int subclass / "
+        "tiny float, fibers built in one go or as read-grow histories (U.touch between appends), shape "
         "None/fitting/arbitrary, active range None/arbitrary incl. empty and inverted, format C/U, free-standing or owned as the root of a one-rank tensor whose rank format differs from the fiber's own; up to "
         "two more fibers for co-iteration; 6-10 operations each run on a fresh copy: "
         "iterOccupancy/iterRange/iterActive/__iter__ with every legal start_pos or none, "
@@ -46,6 +51,13 @@ EXPLANATION = ("theorems: each traversal of the faithful model = the declarative
                "c07_spec is that declarative slice evaluated against the implementation's yields")
 
 MAXC = 8
+# theme T1: Fiber(default=None) has no empty value - a stored 0 is an ordinary element.  Encoded by a
+# sentinel default that never occurs as a payload: the implementation gets None, a None it hands out
+# as the stand-in for an absent coordinate is observed as the sentinel.  Only creation-free operations
+# are generated for it (getPayloadRef / fromLazy cannot create a None payload: they assert).
+NONE_D = -999983
+NONE_KINDS = ["occ", "range", "range", "active", "iter", "shape", "ashape", "rshape", "coshape", "coashape",
+              "corshape", "window", "window"]
 MINC = -4     # stored coordinates range over MINC..MAXC (negative ones are legal: halos, c -> c-k projections)
 
 
@@ -101,6 +113,14 @@ def pick_sp(rng, es, d, low, prob=0.6):
     return rng.choice(sps) if sps else None
 
 
+def grow_es(es, d, cs):
+    """the stored elements after getPayloadRef(c) for every c of cs: absent coordinates hold the default"""
+    dt = [] if es and not isinstance(es[0][1], int) else d
+    have = {c for c, _ in es}
+    out = [list(e) for e in es] + [[c, copy.deepcopy(dt)] for c in sorted(set(cs) - have)]
+    return sorted(out, key=lambda e: e[0])
+
+
 def est_shape(es):
     return es[-1][0] + 1 if es else 0
 
@@ -125,7 +145,7 @@ def gen_op(rng, case, kind=None):
     es, d = case["es"], case["d"]
     kind = kind or rng.choice(["occ", "range", "range", "active", "shape", "ashape", "rshape", "rshape",
                                "iter", "coshape", "coashape", "corshape", "project", "project",
-                               "project", "prune", "prune", "window"])
+                               "project", "prune", "prune", "window", "grow", "grow"])
     if kind == "occ":
         return {"op": "occ", "sp": pick_sp(rng, es, d, lambda c: False)}
     if kind == "range":
@@ -160,6 +180,21 @@ def gen_op(rng, case, kind=None):
                    if iv is None or p == 0 or es[p - 1][0] < iv[0]]
             sp = rng.choice(sps) if sps else None
         return {"op": "project", "k": k, "b": b, "iv": iv, "sp": sp}
+    if kind == "grow":
+        # a history: reads, a reference traversal that may grow the fiber (also past its end), then an
+        # operation whose slice depends on the content / the active range the fiber has by then
+        if case.get("owner") is not None or d == NONE_D:
+            kind = rng.choice(["active", "ashape", "iter"])
+            return gen_op(rng, case, kind)
+        top = (es[-1][0] if es else 0)
+        lo = rng.choice([0, top, top + 1, rng.randint(MINC - 1, MAXC + 1)])
+        hi = rng.choice([top + 1 + rng.randint(0, 4), rng.randint(lo, MAXC + 5), lo + rng.randint(0, 3)])
+        step = rng.choice([1, 1, 2, 3])
+        grown = copy.deepcopy(case)
+        grown["es"] = grow_es(es, d, range(lo, hi, step))
+        inner = gen_op(rng, grown, rng.choice(["active", "active", "ashape", "ashape", "coashape", "iter", "iter",
+                                               "shape", "occ", "project", "prune", "window", "grow"]))
+        return {"op": "grow", "lo": lo, "hi": hi, "step": step, "then": inner}
     if kind == "window":
         o = gen_op(rng, case, "project")
         lo = rng.choice([None, 0, 0, rng.randint(-12, 12)])
@@ -176,10 +211,14 @@ def gen_op(rng, case, kind=None):
     raise ValueError(kind)
 
 
-def gen_case(rng, depth=None, zero_only=False, nops=None, kinds=None):
+def gen_case(rng, depth=None, zero_only=False, nops=None, kinds=None, none_default=False):
     d = rng.choice([0, 0, 0, 3])
     depth = depth or rng.choice([1, 1, 1, 2])
     es = gen_es(rng, d, depth)
+    if none_default:
+        d, depth, kinds = NONE_D, 1, NONE_KINDS
+        es = [[c, rng.choice([0, 0, 1, 4, 7])] for c, _ in gen_leaf_fiber(rng, 0, rng.choice([0.2, 0.5, 0.8]), 0.0,
+                                                                       rng.choice([0, MINC]), rng.choice([3, MAXC]))]
     if zero_only:
         es = [[c, d] for c, _ in gen_leaf_fiber(rng, d, 0.5, 1.0, rng.choice([0, MINC]))] or [[2, d]]
     shape = rng.choice([None, None, est_shape(es), rng.randint(0, MAXC + 3), rng.randint(MINC, MAXC + 3)])
@@ -194,6 +233,11 @@ def gen_case(rng, depth=None, zero_only=False, nops=None, kinds=None):
             "owner": owner, "others": [gen_es(rng, d, depth) for _ in range(rng.choice([0, 1, 1, 2]))]}
     n = nops or rng.randint(6, 10)
     case["ops"] = [gen_op(rng, case, rng.choice(kinds) if kinds else None) for _ in range(n)]
+    if none_default:
+        case["others"] = [[[c, rng.choice([0, 2, 5])] for c, _ in o] for o in case["others"]]
+        for o in case["ops"]:
+            if "ref" in o:
+                o["ref"] = False
     return case
 
 
@@ -205,6 +249,8 @@ def streams(tier, rng):
                            for _ in range(60 if not big else 600)], False)
     yield ("lazy", [gen_case(rng, kinds=["project", "project", "prune", "window"]) for _ in range(250 if not big else 4000)], False)
     yield ("boundary", boundary_cases(rng, 120 if not big else 1500), False)
+    yield ("histories", [gen_case(rng, kinds=["grow"]) for _ in range(150 if not big else 2000)], False)
+    yield ("none-default", [gen_case(rng, none_default=True) for _ in range(120 if not big else 1500)], False)
     if big:
         yield ("exhaustive-4coords", exhaustive_cases(), True)
 
@@ -270,6 +316,7 @@ def describe(case):
             "explicit_default": U.has_explicit_default(case["es"], case["d"]),
             "all_stored_empty": bool(case["es"]) and U.is_empty_lit(case["es"], case["d"]),
             "nonzero_default": case["d"] != 0,
+            "none_default": case["d"] == NONE_D,
             "any_start_pos": any(o.get("sp") is not None for o in case["ops"]),
             "reversing_projection": any(o["op"] in ("project", "window") and o["k"] < 0 for o in case["ops"]),
             "ref_mode": any(o.get("ref") for o in case["ops"]),
@@ -305,6 +352,8 @@ def op_to_coq(o):
     if k == "project":
         iv = "None" if o["iv"] is None else "(Some (%s, %s))" % (L.z(o["iv"][0]), L.z(o["iv"][1]))
         return "(OpProject %s %s %s %s)" % (L.z(o["k"]), L.z(o["b"]), iv, zo(o["sp"]))
+    if k == "grow":
+        return "(OpGrow %s %s %s %s)" % (L.z(o["lo"]), L.z(o["hi"]), L.z(o["step"]), op_to_coq(o["then"]))
     if k == "window":
         iv = "None" if o["iv"] is None else "(Some (%s, %s))" % (L.z(o["iv"][0]), L.z(o["iv"][1]))
         return "(OpWindow %s %s %s %s %s)" % (L.z(o["k"]), L.z(o["b"]), iv, zo(o["lo"]), zo(o["hi"]))
@@ -325,17 +374,26 @@ def case_to_coq(c):
 # ------------------------------------------------------------------ implementation side
 
 def _build(es, d, shape=None, active=None, fmtU=False):
+    """values and the default go through U.dress (int / float / int subclass / tiny float).  In touch
+    mode the fiber is built as a history (theme T3): the first half of its elements, a battery of
+    read-only queries (U.touch: getActive, maxCoord, getShape, getDefault, iterActive ...), then the
+    remaining elements one append at a time with the queries repeated - anything a read remembers is
+    stale by the time the operation under test runs.  The finished fiber is the same fiber."""
     from fibertree import Fiber
     coords = [c for c, _ in es]
-    pays = [s if isinstance(s, int) else _build(s, d) for _, s in es]
+    pays = [U.dress(s) if isinstance(s, int) else _build(s, d) for _, s in es]
     kw = {}
     if shape is not None:
         kw["shape"] = shape
     if active is not None:
         kw["active_range"] = tuple(active)
-    f = Fiber(coords, pays, default=d, **kw)
+    n0 = len(coords) // 2 if U.MODE["touch"] else len(coords)
+    f = Fiber(coords[:n0], pays[:n0], default=None if d == NONE_D else U.dress(d), **kw)
     if fmtU:
         f.getRankAttrs().setFormat("U")
+    for i in range(n0, len(coords)):
+        U.touch(f)
+        f.append(coords[i], pays[i])
     return f
 
 
@@ -343,10 +401,13 @@ def _val(p):
     from fibertree import Fiber, Payload
     if isinstance(p, Fiber):
         return [[c, _val(q)] for c, q in zip(p.coords, p.payloads)]
+    if p is None:
+        return NONE_D       # the stand-in for an absent coordinate of a default=None fiber
     n = 0
     while isinstance(p, Payload):
         p = p.value
         n += 1
+    p = U.undress(p)
     if n != 1 or isinstance(p, bool) or not isinstance(p, int):
         return [-2, n]
     return p
@@ -363,7 +424,7 @@ def _pred(o):
     from fibertree import Fiber, Payload
 
     def fn(i, c, p):
-        v = len(p.coords) if isinstance(p, Fiber) else Payload.get(p)
+        v = len(p.coords) if isinstance(p, Fiber) else U.undress(Payload.get(p))
         return (o["a"] * i + o["b"] * c + o["e"] * v) % o["m"] < o["th"]
     return fn
 
@@ -374,11 +435,19 @@ def run_op(case, o):
     if case.get("owner") is not None:
         # the fiber becomes the root of a one-rank tensor; its own RankAttrs keep their format
         from fibertree import Tensor
-        T = Tensor.fromFiber(rank_ids=["M"], fiber=fs[0], default=case["d"])
+        T = Tensor.fromFiber(rank_ids=["M"], fiber=fs[0],
+                             default=None if case["d"] == NONE_D else U.dress(case["d"]))
         T.setFormat("M", "U" if case["owner"] else "C")
+        if U.MODE["touch"]:
+            U.touch(fs[0])
         assert T.getRoot() is fs[0] and fs[0].getOwner() is not None
     fs += [_build(t, case["d"]) for t in case["others"]]
     f = fs[0]
+    while o["op"] == "grow":
+        U.touch(f)                                   # reads that reach getActive / maxCoord / getShape
+        for _ in f.iterRangeShapeRef(o["lo"], o["hi"], o["step"]):
+            pass
+        o = o["then"]
     k = o["op"]
     involved = fs if k.startswith("co") else [f]
     extra = []
